@@ -283,6 +283,8 @@ func c09exec(c *Ctx, w *c09world, t, i int, op c09op) {
 	case 0:
 		if op.a%3 == 0 {
 			l.Log(lv, "m", zap.Int("t", t), zap.Reflect("r", map[string]int{"i": i}), zap.Error(errors.New("e")))
+		} else if op.a%3 == 1 {
+			l.Log(lv, "rich", richFields(op.b+i, t)...)
 		} else {
 			l.Log(lv, "m", zap.Int("t", t), zap.Int("i", i), zap.Duration("d", time.Second), zap.Error(errors.New("e")))
 		}
@@ -305,8 +307,10 @@ func c09exec(c *Ctx, w *c09world, t, i int, op c09op) {
 		case 0:
 			if op.a%2 == 0 {
 				ch = l.With(zap.Int("t", t))
-			} else {
+			} else if op.a%4 == 1 {
 				ch = l.With(zap.Reflect("r", map[string]int{"t": t}), zap.Any("s", struct{ A, B int }{t, i}))
+			} else {
+				ch = l.With(richFields(op.b+t, i)...)
 			}
 		case 1:
 			ch = l.WithLazy(zap.Int("t", t))
